@@ -96,7 +96,7 @@ pub struct C12Plan {
     pub seeded: usize,
 }
 
-const C12_A: usize = 41 * 19;
+const C12_A: usize = 41 * 21;
 const C12_B: usize = 5 * 35 * 2;
 
 fn c12_response(k: usize, len: usize, rng: &mut Rng) -> EntResp {
@@ -129,12 +129,23 @@ impl Plan for C12Plan {
     fn case(&self, idx: usize) -> AnyCase {
         if idx < C12_A {
             // every requested length 0..=40 x every response kind, real binary
-            let length = idx / 19;
-            let k = idx % 19;
+            let length = idx / 21;
+            let k = idx % 21;
             let mut rng = fixed_rng(0xC12A, idx);
             let ent_len = rm::entropy_len(length).unwrap_or(length * 4 / 3);
-            let resp = c12_response(k, ent_len, &mut rng);
+            let resp = c12_response(k.min(18), ent_len, &mut rng);
             let mut c = gen_plain(&mut rng, length, resp, false);
+            if k >= 19 {
+                // an interrupted source: 3 resp. 5 EINTRs in a row (with and without scribble), then a
+                // good value. Failing and retrying are both fine; printing what was never delivered is not.
+                let el = if ent_len == 0 { 16 } else { ent_len };
+                let n = if k == 19 { 3 } else { 5 };
+                c.entropy = (0..n)
+                    .map(|i| EntResp::Fail { errno: 4, partial: if i % 2 == 1 { hex::encode(rng.bytes(el / 2)) } else { String::new() } })
+                    .collect();
+                c.entropy.push(EntResp::ok(&rng.bytes(el)));
+                c.tail = Some(EntResp::ok(&rng.bytes(el)));
+            }
             if k % 2 == 1 {
                 c.wplan.clear();
             }
@@ -205,8 +216,8 @@ impl Plan for C12Plan {
     }
     fn rule(&self) -> String {
         format!(
-            "Case i is a pure function of (VERIF_SEED, i). Enumerated, seed-independent, real binary (E1): [0,{C12_A}) `new -n L` for every L in 0..=40 x 19 \
-             entropy responses (8 degenerate patterns, 8 fixed random values, EIO, ENOSYS, EIO after scribbling the buffer); [{C12_A},{}) single-searcher vanity \
+            "Case i is a pure function of (VERIF_SEED, i). Enumerated, seed-independent, real binary (E1): [0,{C12_A}) `new -n L` for every L in 0..=40 x 21 \
+             entropy responses (8 degenerate patterns, 8 fixed random values, EIO, ENOSYS, EIO after scribbling the buffer, 3 and 5 EINTRs in a row before a good value); [{C12_A},{}) single-searcher vanity \
              (-j 0 and -j 1) for the 5 lengths x plant position 0..=6 x failure at each request of the search or none. Seeded: 45% threaded vanity search in E2 \
              (2..64 workers, plant 0..12, one failure at a seeded request, seeded scheduler policy random/sticky/PCT-like), 20% plain generation in E2 cross-validated \
              on E1, 20% single-searcher vanity on E1 with a stdout short-write/EINTR plan, 15% library scenario (2..4 tasks x 1..3 concurrent Mnemonic::random calls under the seeded scheduler, each result must carry exactly the bytes delivered to that task's own request). Every successful run feeds the printed phrase back to the real \
